@@ -249,6 +249,12 @@ theorem getD_shift (inp : Array Char) (i : Nat) : (pre ++ inp).getD (i + pre.siz
 theorem shift_getD (a : S) (i : Nat) : (shift pre d a).input.getD (i + pre.size) nul = a.input.getD i nul :=
   getD_shift pre a.input i
 
+/-- the checked element read `self.input[i]` behind the prefix -/
+theorem shift_elem (a : S) (i : Nat) : (shift pre d a).at (i + pre.size) = a.at i := by
+  simp only [S.at, shift]
+  rw [Array.getElem?_append_right (by omega)]
+  congr 1; omega
+
 theorem readChar_eq (s : S) : s.readChar =
     { s with ch := s.input.getD s.readPosition nul, position := s.readPosition, readPosition := s.readPosition + 1 } := by
   have := readChar_ch s
@@ -411,7 +417,7 @@ theorem readString_shift (a : S) (h : Inv a) : readString (shift pre d a) = shif
 theorem readCharToken_shift (a : S) : readCharToken (shift pre d a) = shiftRes pre d (readCharToken a) := by
   simp only [readCharToken, shift_readChar]
   generalize a.readChar = a1
-  simp only [shift_position, shift_size, ge_iff_le, Nat.add_le_add_iff_right, shift_getD,
+  simp only [shift_position, shift_size, ge_iff_le, Nat.add_le_add_iff_right, shift_getD, shift_elem,
     shift_readChar, shift_ch, shift_mk, shiftRes_ite, shiftRes_tok]
   have i2 := readChar_inv a1
   generalize a1.readChar = a2 at i2
@@ -419,7 +425,7 @@ theorem readCharToken_shift (a : S) : readCharToken (shift pre d a) = shiftRes p
   generalize readUntilQuote (a2.input.size + 1) a2 = a3
   simp only [shift_ch, shift_readChar, shift_ite, shift_position, shift_slice]
   generalize (if (a3.ch == '\'') = true then a3.readChar else a3) = a4
-  cases a4.slice a.position a4.position <;> rfl
+  cases a1.at a1.position <;> cases a4.slice a.position a4.position <;> (try simp only [shiftRes_ite, shiftRes_tok, shift_mk]) <;> rfl
 
 theorem readIdentifier_shift (a : S) (h : Inv a) :
     readIdentifier (shift pre d a) = shiftRes pre d (readIdentifier a) := by
@@ -433,7 +439,7 @@ theorem readIdentifier_shift (a : S) (h : Inv a) :
   | some t =>
     simp only [shift_ch, shift_readChar, shiftRes_ite, shift_mk, shiftRes_tok]
     generalize a1.readChar = a2
-    simp only [shift_position, shift_size, ge_iff_le, Nat.add_le_add_iff_right, shift_getD,
+    simp only [shift_position, shift_size, ge_iff_le, Nat.add_le_add_iff_right, shift_getD, shift_elem,
       shift_readChar, shift_ch, shift_mk, shiftRes_ite, shiftRes_tok]
     have i3 := readChar_inv a2
     generalize a2.readChar = a3 at i3
@@ -447,7 +453,7 @@ theorem readIdentifier_shift (a : S) (h : Inv a) :
     generalize (if (a5.ch == '\'') = true then a5.readChar else a5) = a6
     generalize a2.slice a.position a2.input.size = o1
     generalize a6.slice a.position a6.position = o2
-    cases o1 <;> cases o2 <;> rfl
+    cases a2.at a2.position <;> cases o1 <;> cases o2 <;> (try simp only [shiftRes_ite, shiftRes_tok, shift_mk]) <;> rfl
 
 theorem numHead_shift (a : S) :
     numHead (shift pre d a) = (shift pre d (numHead a).1, (numHead a).2) := by
